@@ -1,5 +1,5 @@
 From Coq Require Import List String ZArith NArith Bool Arith.
-From Naunet Require Import Lib.Sexp Lib.ListX Lib.PyStr Model.Species.
+From Naunet Require Import Lib.Sexp Lib.ListX Lib.PyStr Model.Species Model.SpeciesSpec.
 From NaunetGen Require Import Tables.
 Import ListNotations.
 Open Scope string_scope.
@@ -11,6 +11,12 @@ Definition get_tables (e p r : sexp) : option tables :=
   match get_list get_str e, get_list get_str p, get_list get_pair r with
   | Some e, Some p, Some r => Some {| t_elements := e; t_pseudo := p; t_replacement := r |}
   | _, _, _ => None
+  end.
+
+Definition get_item_case (x : sexp) : option (string * list (string * string)) :=
+  match x with
+  | L [A n; its] => match get_list get_pair its with Some l => Some (n, l) | None => None end
+  | _ => None
   end.
 
 Definition symtab : list string := map fst element_massnumber.
@@ -69,6 +75,34 @@ Definition handle_species (cmd : string) (args : list sexp) : option sexp :=
                                    | Some (inl er) => put_perr er
                                    | Some (inr s) => A (sp_name s)
                                    end) names))
+        | _, _ => Some (err "bad tables")
+        end
+    | _ => Some (err "bad args")
+    end
+  else if String.eqb cmd "sp.items" then
+    (* the premises of C08.name_roundtrip evaluated on a rendered name, and the
+       abstract result [items_loop] the theorem equates the parser with *)
+    match args with
+    | [e; p; r; A g; A sfx; cases] =>
+        match get_tables e p r, get_list get_item_case cases with
+        | Some T, Some cases =>
+            let Y := {| y_grain := g; y_surface := sfx |} in
+            let comps := components T Y in
+            let texts := map txt comps in
+            Some (L (map (fun c : string * list (string * string) =>
+                let its := map (fun td : string * string => (chars (fst td), chars (snd td))) (snd c) in
+                let pn := render its in
+                L [bs (wf_tablesb T Y);
+                   bs (list_eqb Ascii.eqb (parsename_of (chars (fst c))) pn);
+                   bs (forallb (fun it : item => memb (list_eqb Ascii.eqb) (fst it) texts
+                                                 && negb (Nat.eqb (List.length (fst it)) 0)) its);
+                   bs (unambiguousb comps pn (positions 0 its));
+                   match items_loop T Y (([], []) :: its) st0 with
+                   | inl er => put_perr er
+                   | inr st => L [A "ok";
+                                  L (map (fun kv : string * N => L [A (fst kv); A (print_N (snd kv))]) (p_counts st));
+                                  put_optN (p_surface st); put_optN (p_grain st)]
+                   end]) cases))
         | _, _ => Some (err "bad tables")
         end
     | _ => Some (err "bad args")
